@@ -84,6 +84,14 @@ type coalescer struct {
 	closeOnce sync.Once
 	wg        sync.WaitGroup
 
+	// inflight is read-locked by every submit from its shutdown pre-check to
+	// its return. The writer takes the write lock once after done is closed,
+	// before its final drain: at that point every submit that got past the
+	// pre-check has completed its channel send (or given up), and every
+	// later submit sees done closed. Without it a submit could enqueue after
+	// the final drain and return nil for a message nobody will ever read.
+	inflight sync.RWMutex
+
 	maxBatch   int
 	errHandler CoalescingErrorHandler
 }
@@ -126,6 +134,9 @@ func newCoalescer(dest string, nc *inet.Client, cfg coalescingConfig) *coalescer
 //   - errCoalescerClosed if the coalescer is shut down while the caller is
 //     waiting (or before the call began).
 func (c *coalescer) submit(ctx context.Context, msg *internalpb.RemoteMessage) error {
+	c.inflight.RLock()
+	defer c.inflight.RUnlock()
+
 	// Pre-check shutdown so a submit after close returns immediately rather
 	// than racing with a context that has no deadline.
 	select {
@@ -220,6 +231,11 @@ func (c *coalescer) run() {
 	for {
 		select {
 		case <-c.done:
+			// Wait for the submits that passed their shutdown pre-check to
+			// finish; they cannot block on us: done is closed, so their
+			// select returns even when the channel is full.
+			c.inflight.Lock()
+			c.inflight.Unlock() //nolint:staticcheck // barrier only
 			// Drain everything still buffered and exit. Submit refuses new
 			// enqueues once done is closed, so the channel is a bounded
 			// set at this point; it can hold up to 4*maxBatch messages,
